@@ -98,7 +98,22 @@ func NumSegs(v float64) []Seg {
 	return []Seg{{IsNum: true, Num: v}}
 }
 
+// MaxStringLen bounds the strings the model will build: programs that grow a
+// string exponentially exhaust memory (a resource limit, like unbounded
+// recursion, not a subject of the properties).
+const MaxStringLen = 200000
+
 func concat(a, b []Seg) *Str {
+	total := 0
+	for _, s := range a {
+		total += len(s.Text) + 8
+	}
+	for _, s := range b {
+		total += len(s.Text) + 8
+	}
+	if total > MaxStringLen {
+		ood("string longer than the model's cap of %d bytes (resource exhaustion is out of scope)", MaxStringLen)
+	}
 	out := make([]Seg, 0, len(a)+len(b))
 	for _, s := range append(append([]Seg{}, a...), b...) {
 		if !s.IsNum && len(out) > 0 && !out[len(out)-1].IsNum {
